@@ -22,6 +22,8 @@ type Scheduler interface {
 	// RLock/RUnlock: shared acquisition of a (read-write) mutex.
 	RLock(m *Mutex)
 	RUnlock(m *Mutex)
+	// TryLock: non-blocking acquisition (exclusive, or shared for TryRLock).
+	TryLock(m *Mutex, shared bool) bool
 }
 
 type schedBox struct{ s Scheduler }
@@ -55,6 +57,13 @@ func (m *Mutex) Lock() {
 		return
 	}
 	m.mu.Lock()
+}
+
+func (m *Mutex) TryLock() bool {
+	if s := current(); s != nil {
+		return s.TryLock(m, false)
+	}
+	return m.mu.TryLock()
 }
 
 func (m *Mutex) Unlock() {
@@ -153,6 +162,20 @@ func (m *RWMutex) Lock() {
 		return
 	}
 	m.mu.Lock()
+}
+
+func (m *RWMutex) TryLock() bool {
+	if s := current(); s != nil {
+		return s.TryLock(&m.id, false)
+	}
+	return m.mu.TryLock()
+}
+
+func (m *RWMutex) TryRLock() bool {
+	if s := current(); s != nil {
+		return s.TryLock(&m.id, true)
+	}
+	return m.mu.TryRLock()
 }
 
 func (m *RWMutex) Unlock() {
